@@ -138,7 +138,7 @@ func (ex *Executor) VerifyUnit(key string, spec *FuncSpec) {
 		ex.errf("%s has no body", key)
 		return
 	}
-	st := &State{heap: map[string]*Term{}, globals: map[*ssa.Global]Val{}, alloc: Sym("alloc@0", SInt), segStart: "entry", segSpec: spec}
+	st := &State{heap: map[string]*Term{}, globals: map[*ssa.Global]Val{}, alloc: Sym("alloc@0", SInt), segStart: "entry", segHeap: map[string]*Term{}, segSpec: spec}
 	st.assume(Ge(st.alloc, Num(0)))
 	fr := ex.newFrame(fn, spec, 0)
 	fr.unit = true
@@ -363,7 +363,8 @@ func (ex *Executor) enterBlock(st *State, fr *Frame, to *ssa.BasicBlock) bool {
 		}
 		// locals held in cells that are written in the loop are covered by phis; address-taken locals: havoc cells written
 	} else {
-		w := ex.writtenInBlocks(fr.fn, loopBlocks)
+		var cells []ssa.Value
+		w := ex.writtenInBlocksP(fr.fn, loopBlocks, &cells)
 		if w["*"] {
 			for _, n := range st.heapNames() {
 				st.havocHeap(n)
@@ -372,6 +373,11 @@ func (ex *Executor) enterBlock(st *State, fr *Frame, to *ssa.BasicBlock) bool {
 		} else {
 			for n := range w {
 				st.havocHeap(n)
+			}
+			for _, c := range cells {
+				if pv, ok := fr.vals[c]; ok {
+					ex.store(st, pv, ex.freshOfType(st, "hv."+c.Name(), c.Type().Underlying().(*types.Pointer).Elem()))
+				}
 			}
 		}
 	}
@@ -393,6 +399,7 @@ func (ex *Executor) enterBlock(st *State, fr *Frame, to *ssa.BasicBlock) bool {
 	fr.loops[to] = lc
 	st.events = nil
 	st.segStart = cutName
+	st.segHeap = copyHeap(st.heap)
 	st.path = append(st.path, fmt.Sprintf("L%d", ord))
 	return true
 }
